@@ -112,6 +112,14 @@ class SymE:
         from .absx import AbsColl
         return AbsColl(name, **info)
 
+    def absseq(self, name, head, factory, tail, pytype=list, min_len=0):
+        """head ++ (an unknown number >= min_len of elements made by factory(E, tag)) ++ tail"""
+        from .absx import AbsColl, AbsSeqList
+        n = self.int(name + ".n")
+        self.assume(n >= min_len)
+        mid = AbsColl(name + ".run", length=n, factory=factory, pytype=list)
+        return AbsSeqList(head, mid, tail, pytype)
+
 
 class ConcE:
     """Harness in concrete mode: symbols take the values of a model (replay) or of a generator."""
@@ -187,6 +195,10 @@ class ConcE:
 
     def abslist(self, name, **info):
         return []
+
+    def absseq(self, name, head, factory, tail, pytype=list, min_len=0):
+        n = max(self.int(name + ".n"), min_len)
+        return pytype(list(head) + [factory(self, f"m{i}") for i in range(n)] + list(tail))
 
 
 # ---------------------------------------------------------------------------------------------
@@ -550,6 +562,14 @@ def _verify_mode(contract, case, contracts, want_models, mode):
             bad = [w for (oid, w) in ctx.writes if oid in p["reach"] and oid not in allowed]
             clauses.append(("frame:modifies" + repr(tuple(mod)), not bad, None))
             p["bad_writes"] = bad
+        rd = getattr(contract, "reads", None)
+        if rd is not None and out.kind != "loop-body":
+            for idx, allowed in rd.items():
+                oid = id(p["args"][idx])
+                extra_reads = sorted({n for (o, n) in ctx.reads if o == oid and n not in allowed})
+                clauses.append((f"frame:reads(arg{idx})<={sorted(allowed)}", not extra_reads, None))
+                if extra_reads:
+                    p["bad_writes"] = (p.get("bad_writes") or []) + ["read of ." + n for n in extra_reads]
         for cname, cond, npc in clauses:
             cond = S.truthy(cond)
             pc = ctx.pc if npc is None else ctx.pc[:npc]
